@@ -124,4 +124,19 @@ Definition parse_iso (s : str) : option datetime :=
 Definition iso_of (t : datetime) : str :=
   map dch (digs 4 (dt_Y t)) ++ [45] ++ map dch (digs 2 (dt_m t)) ++ [45] ++ map dch (digs 2 (dt_d t)) ++ [32]
   ++ map dch (digs 2 (dt_H t)) ++ [58] ++ map dch (digs 2 (dt_M t)) ++ [58] ++ map dch (digs 2 (dt_S t)).
+
+(* The other plain ISO 8601 spellings of a date-time that dateutil.parser.parse and datetime.fromisoformat (3.12) both
+   read, with the same meaning: 'T' instead of the blank, no seconds (= second 0), the date alone (= midnight).
+   iso_canon: the canonical 19-character text of one of the five spellings; None: another length, or something other
+   than a blank / 'T' at index 10.  (The fields themselves are checked by parse_iso on the canonical text.) *)
+Definition iso_sep (c : N) : bool := (c =? 32) || (c =? 84).
+Definition iso_canon (s : str) : option str :=
+  match length s with
+  | 10%nat => Some (s ++ [32; 48; 48; 58; 48; 48; 58; 48; 48])
+  | 16%nat => if iso_sep (nth 10 s 0) then Some (firstn 10 s ++ [32] ++ skipn 11 s ++ [58; 48; 48]) else None
+  | 19%nat => if iso_sep (nth 10 s 0) then Some (firstn 10 s ++ [32] ++ skipn 11 s) else None
+  | _ => None
+  end.
+Definition parse_iso_any (s : str) : option datetime :=
+  match iso_canon s with Some c => parse_iso c | None => None end.
 Close Scope N_scope.
